@@ -1,0 +1,30 @@
+//! Seams for the deterministic-simulation harness kept in /verif.
+//!
+//! This module only exists with `--cfg anthem_verif`; the shipped build never sees it.
+//! Every hook in the crate is a guarded `use` of one of the names below, which shadows the
+//! std/threadpool/num_cpus/clap item of the same name at that one site.
+
+pub mod sim {
+    pub use anthem_simrt::{
+        Command, Instant, Stdio, ThreadPool, channel, num_cpus, print, println,
+    };
+
+    /// Stand-in for `Arguments::parse()`: same parser, argv supplied by the simulator.
+    pub struct Arguments;
+
+    impl Arguments {
+        pub fn parse() -> crate::command_line::arguments::Arguments {
+            match <crate::command_line::arguments::Arguments as clap::Parser>::try_parse_from(
+                anthem_simrt::argv(),
+            ) {
+                Ok(arguments) => arguments,
+                Err(error) => panic!("simulated argv rejected by clap: {error}"),
+            }
+        }
+    }
+}
+
+pub use crate::{
+    command_line::files::Files,
+    simplifying::fol::sigma_0::{classic::CLASSIC, ht::HT, intuitionistic::INTUITIONISTIC},
+};
